@@ -184,6 +184,19 @@ pub fn observe<T: Copy + Bits>(b: &Arc<Buffer<T>>, spec: &Spec<T>) {
         assert!(exp[i].matches(&tags[i], exp[i].off), "reported tag differs from spec (pos/key/value/order)");
     }
     assert!(acc::tag_count(b) == spec.tags.len(), "stored tag count differs from spec");
+    // Representation invariant of the tag store: keyed by the absolute ring position of a
+    // buffered sample, stored position == key.
+    for i in 0..spec.tags.len() {
+        match acc::tag_at(b, i) {
+            Some((k, t)) => {
+                assert!(k < cap, "stored tag key is not a ring position (>= capacity)");
+                assert!(t.pos() == k, "stored tag position differs from its key");
+                assert!((k + cap - rpos) % cap < used, "a tag is stored for a sample that is not buffered");
+                std::mem::forget(t);
+            }
+            None => panic!("stored tag count inconsistent"),
+        }
+    }
     drop(r);
     std::mem::forget(tags);
     std::mem::forget(exp);
@@ -674,4 +687,66 @@ pub fn ceiling(read_side: bool) {
     std::mem::forget(r);
     std::mem::forget(tx);
     std::mem::forget(rx);
+}
+
+/// C01: an element size that does not divide the buffer ([u8;3] in 8 bytes, capacity 2) is
+/// either refused (error / panic) or every later operation delivers the committed samples.
+/// Run as a refusal harness: reaching the witness means corrupted data was delivered.
+pub fn nondividing() {
+    let b = match Buffer::<[u8; 3]>::new(8) {
+        Ok(b) => Arc::new(b),
+        Err(e) => {
+            std::mem::forget(e);
+            panic!("refused by Buffer::new (fine)");
+        }
+    };
+    let s0: [u8; 3] = any();
+    let s1: [u8; 3] = any();
+    let s2: [u8; 3] = any();
+    let mut w = match b.clone().write_buf() {
+        Ok(w) => w,
+        Err(e) => {
+            std::mem::forget(e);
+            panic!("refused (fine)");
+        }
+    };
+    let wl = w.len();
+    {
+        let s = w.slice();
+        if wl > 0 {
+            s[0] = s0;
+        }
+        if wl > 1 {
+            s[1] = s1;
+        }
+    }
+    let n1 = if wl > 2 { 2 } else { wl };
+    w.produce(n1, &[]);
+    acc::consume(&b, 1);
+    let mut w = match b.clone().write_buf() {
+        Ok(w) => w,
+        Err(e) => {
+            std::mem::forget(e);
+            panic!("refused (fine)");
+        }
+    };
+    if w.len() == 0 {
+        panic!("no space (fine)");
+    }
+    w.slice()[0] = s2;
+    w.produce(1, &[]);
+    acc::consume(&b, 1);
+    let (r, t) = match b.clone().read_buf() {
+        Ok(x) => x,
+        Err(e) => {
+            std::mem::forget(e);
+            panic!("refused (fine)");
+        }
+    };
+    std::mem::forget(t);
+    let ok = r.len() == 1 && r.slice()[0].exact_eq(&s2);
+    if !ok {
+        witness!("RETURNED: a stream with a non-dividing element size was accepted and delivered corrupted data");
+    }
+    std::mem::forget((r, b));
 }
